@@ -435,7 +435,20 @@ func runC05(r *engine.Run) {
 			}
 			mp, ok := q.MACPayload.(*lorawan.MACPayload)
 			if !ok {
-				c.Outcome("tamper/not-a-data-frame")
+				// the flipped bit turned the frame into another kind: a receiver that still runs
+				// its data-frame validation must get a rejection (false or an error), not a panic
+				for _, up := range []bool{true, false} {
+					okv, err := false, error(nil)
+					if pn, site, v := engine.Try(func() { okv, err = libValidateMIC(&q, up, m) }); pn {
+						c.Fail("tamper/validate-panics/"+site, fmt.Sprintf("%s %s: received %x decodes to a %T; data MIC validation (uplink=%v) panics: %v", in.name, what, rx, q.MACPayload, up, v), nil)
+						return
+					}
+					if okv && err == nil {
+						c.Fail("tamper/non-data-frame-validates", fmt.Sprintf("%s %s: received %x decodes to a %T and passes the data MIC validation", in.name, what, rx, q.MACPayload), nil)
+						return
+					}
+				}
+				c.Outcome("tamper/not-a-data-frame(rejected)")
 				return
 			}
 			mp.FHDR.FCnt |= fcntUpper
